@@ -479,10 +479,10 @@ def op_sort_order(w, ev, slot):
         expected = ModelError('order repeats an id')
     else:
         expected = ref.take(ax, perm)
-    form = ev.get('form', 0) % 2
+    form = ev.get('form', 0) % 3
 
     def do(real):
-        arg = list(names) if form == 0 else np.array(names)
+        arg = [list(names), np.array(names), tuple(names)][form]
         if ev.get('pos'):
             return real.sort_order(arg, AXNAME[ax])
         return real.sort_order(arg, axis=AXNAME[ax])
@@ -506,9 +506,16 @@ def op_sort(w, ev, slot):
         if fam % CB.N_SORT == 0 and fault is None and not ev.get('explicit'):
             return real.sort(axis=AXNAME[ax])          # library default natsort
         rec = Recorder(0 if fault is not None else None)
+        sort_f = CB.make_sort(fam, rec)
+        if ev.get('form', 0) % 3:
+            # the order comes back as a tuple / an array instead of a list
+            inner, conv = sort_f, (tuple, np.array)[ev['form'] % 3 - 1]
+
+            def sort_f(ids):
+                return conv(inner(ids))
         if ev.get('pos'):
-            return real.sort(CB.make_sort(fam, rec), AXNAME[ax])
-        return real.sort(CB.make_sort(fam, rec), axis=AXNAME[ax])
+            return real.sort(sort_f, AXNAME[ax])
+        return real.sort(sort_f, axis=AXNAME[ax])
     if fault is not None:
         w.stats['fault.F1.armed'] += 1
     return _newtable(w, ev, slot, 'sort', do, expected, 'reorder.result')
@@ -634,7 +641,12 @@ def op_add_metadata(w, ev, slot):
     for i in sel:
         mapping[ids[i]] = V.md_entry(keymask, salt, ids[i], w.ctrl_md)
     for k in range(ev.get('extra', 0) % 3):
-        ghost = '%s~%d' % (w.absent_id(), k)
+        # ids the table does not have: unrelated ones and look-alikes of
+        # ids it has (an existing id as prefix, a prefix, a case variant)
+        ghost = '%s~%d' % (w.absent_id(), k) if (salt + k) % 2 else \
+            w.absent_like(ids, 1 + salt % 13 + k)
+        if ghost in ids or ghost in mapping:
+            continue
         mapping[ghost] = V.md_entry(keymask, salt, ghost)
     exp = ref.copy()
     cur = [dict(d) for d in exp.mdl(ax)]
